@@ -46,6 +46,7 @@ type c01Msg struct {
 	// Faulty: (connection leg) the line arrives in two reads, cut at this offset, with a transient read
 	// error between them (0: delivered whole)
 	FaultCut int `json:"fault_cut,omitempty"`
+	variant  bool // set on the derived second message
 }
 
 func escapeTagValue(v string) string {
@@ -582,7 +583,20 @@ func runC01(m *c01Msg) *Violation {
 	if target != e.Target {
 		return violationf("C01", "%q: Target() = %q, want %q", wire, target, e.Target)
 	}
-	if !m.Conn {
+	// the same message again with the letter case of its source (or of some other component) flipped:
+	// nothing remembered from the first parse may leak into the second
+	if m.SrcKind != 0 && !m.variant {
+		v := *m
+		v.variant = true
+		v.Host, v.Nick, v.User = Q(flipCase(string(m.Host))), Q(flipCase(string(m.Nick))), Q(flipCase(string(m.User)))
+		if v.source() != m.source() {
+			if viol := runC01(&v); viol != nil {
+				viol.Msg = "(second message of the same process, letter case of the source flipped) " + viol.Msg
+				return viol
+			}
+		}
+	}
+	if !m.Conn || m.variant {
 		return nil
 	}
 	if m.FaultCut > 0 && m.FaultCut < len(wire) {
@@ -664,6 +678,99 @@ func runC01Faulty(m *c01Msg, e c01Expect, wire string) *Violation {
 		}
 	}
 	return nil
+}
+
+func flipCase(s string) string {
+	b := []byte(s)
+	for i, c := range b {
+		switch {
+		case c >= 'a' && c <= 'z':
+			b[i] = c - 32
+		case c >= 'A' && c <= 'Z':
+			b[i] = c + 32
+		}
+	}
+	return string(b)
+}
+
+// TestC01_Concurrent: several goroutines parse their own messages at the same time (two connections in
+// one process do exactly that); each must get its own message back.
+func TestC01_Concurrent(t *testing.T) {
+	col := evid.New("C01", "concurrent leg: 2..6 goroutines each parsing its own generated message 300 times at once; every result must equal the goroutine's own expectation; non-trivial = some message has an escaped tag value; distinct by the set of wire texts")
+	defer finish(t, col)
+	rapid.Check(t, func(t *rapid.T) {
+		n := rapid.IntRange(2, 6).Draw(t, "goroutines")
+		var msgs []*c01Msg
+		nt := false
+		key := ""
+		for i := 0; i < n; i++ {
+			m := genC01(t)
+			msgs = append(msgs, m)
+			nt = nt || m.nontrivial()
+			key += m.print() + "\n"
+		}
+		col.Case(key, nt, fmt.Sprintf("goroutines=%d", n))
+		res := make(chan *Violation, n)
+		start := make(chan struct{})
+		for _, m := range msgs {
+			m := m
+			go func() {
+				e := m.expect()
+				<-start
+				for k := 0; k < 300; k++ {
+					l, p := parseNoPanic(e.Raw)
+					if p != nil {
+						res <- violationf("C01", "ParseLine(%q) panicked while other goroutines were parsing: %v", e.Raw, p)
+						return
+					}
+					if v := checkLineAgainst("C01", l, e, "ParseLine, concurrently with other goroutines"); v != nil {
+						res <- v
+						return
+					}
+				}
+				res <- nil
+			}()
+		}
+		close(start)
+		var first *Violation
+		for range msgs {
+			if v := <-res; v != nil && first == nil {
+				first = v
+			}
+		}
+		if first != nil {
+			failRapid(t, "TestC01_Concurrent", first, msgs)
+		}
+	})
+}
+
+func TestC01_Concurrent_Replay(t *testing.T) {
+	var msgs []*c01Msg
+	loadReplay(t, &msgs)
+	for round := 0; round < 50; round++ {
+		done := make(chan *Violation, len(msgs))
+		for _, m := range msgs {
+			m := m
+			go func() {
+				e := m.expect()
+				for k := 0; k < 300; k++ {
+					if l, p := parseNoPanic(e.Raw); p != nil {
+						done <- violationf("C01", "panic: %v", p)
+						return
+					} else if v := checkLineAgainst("C01", l, e, "concurrent"); v != nil {
+						done <- v
+						return
+					}
+				}
+				done <- nil
+			}()
+		}
+		for range msgs {
+			if v := <-done; v != nil {
+				t.Fatalf("REPRODUCED %s", v.Msg)
+			}
+		}
+	}
 }
 
 func TestC01(t *testing.T) {
